@@ -220,13 +220,13 @@ inline IndexType adjust_point_at_index(const IndexType index, DenseMatrix& data,
             /* Try to change the current coordinate in positive direction */
             data(i, index) += learning_rate;
             new_error = compute_error_for_point(index, data, error_func_data);
-            if (new_error >= old_error)
+            if (!(new_error < old_error))
             {
                 /* Did not help - switching to negative direction */
                 data(i, index) -= 2 * learning_rate;
                 new_error = compute_error_for_point(index, data, error_func_data);
             }
-            if (new_error >= old_error)
+            if (!(new_error < old_error))
                 /* Did not help again - reverting to beginning */
                 data(i, index) += learning_rate;
             else
